@@ -27,6 +27,26 @@ const (
 	// opReuse (class reuse): the running handler H is stopped and its NAME is registered again as handler N
 	// (AddHandler / AddNoPublisherHandler), followed at once by N.AddMiddleware(IDs...); the step ends when H.Stopped() is closed.
 	opReuse = "reuse"
+	// opHandover (class handover): the running handlers Stops are stopped (Handler.Stop or end of their subscription) and, WITHOUT
+	// waiting for Stopped(), RunHandlers is called for the handlers added since the last start call; the step ends when every
+	// stopped handler's Stopped() is closed. It starts every added, not yet started handler (like runh).
+	opHandover = "handover"
+)
+
+// how the stops of a handover step are issued relative to the RunHandlers call (step.Issue)
+const (
+	issueBefore     = "before"     // Stop()/subscription end, then RunHandlers at once
+	issueConcurrent = "concurrent" // a second goroutine issues the stops while the caller is in RunHandlers
+	issueParked     = "parked"     // RunHandlers first; the stops are issued when the starting handlers sit in a middleware constructor
+)
+
+// what the middleware constructors (the func(HandlerFunc) HandlerFunc itself, called while a starting handler builds its chain) do
+// during a handover step (step.Ctor)
+const (
+	ctorPlain = "plain"
+	ctorYield = "yield" // yield the processor a few times
+	ctorSlow  = "slow"  // take a while (timer)
+	ctorPark  = "park"  // the constructors of the middlewares step.Park block until every stopped handler's Stopped() is closed
 )
 
 // how the re-registration of a reused name is timed relative to the end of the old handler (step.Mode)
@@ -56,6 +76,15 @@ type step struct {
 	N      int
 	Mode   string
 	StopBy string
+	// opHandover: Stops = running handlers that are stopped, StopKinds[i] = "stop" | "subclose" for Stops[i], Issue / Ctor see above,
+	// Park = middleware ids whose constructor parks (one per starting handler, Ctor == park), Jit = yields before the stops /
+	// before RunHandlers (Issue == concurrent).
+	Stops     []int
+	StopKinds []string
+	Issue     string
+	Ctor      string
+	Park      []int
+	Jit       [2]int
 }
 
 // mwTarget: the handler index (-1 = router level) a step registers middlewares for; ok=false when it registers none.
@@ -106,6 +135,7 @@ type program struct {
 	// HasRejected / HasReuse: the program contains rejected calls / reused names (classes rejected, reuse).
 	HasRejected bool
 	HasReuse    bool
+	HasHandover bool
 }
 
 func (p *program) String() string {
@@ -135,6 +165,22 @@ func (p *program) String() string {
 			fmt.Fprintf(&b, "stop!(h%d)", s.H)
 		case opReuse:
 			fmt.Fprintf(&b, "reuse(h%d->h%d:%s;%s,%s)", s.H, s.N, ints(s.IDs), s.Mode, s.StopBy)
+		case opHandover:
+			b.WriteString("handover(")
+			for i, h := range s.Stops {
+				if i > 0 {
+					b.WriteByte(',')
+				}
+				fmt.Fprintf(&b, "h%d/%s", h, s.StopKinds[i])
+			}
+			fmt.Fprintf(&b, ";%s;%s", s.Issue, s.Ctor)
+			if s.Ctor == ctorPark {
+				fmt.Fprintf(&b, ":%s", ints(s.Park))
+			}
+			if s.Issue == issueConcurrent {
+				fmt.Fprintf(&b, ";jit%d/%d", s.Jit[0], s.Jit[1])
+			}
+			b.WriteString(")")
 		default:
 			b.WriteString(s.Op)
 		}
@@ -189,6 +235,11 @@ type expect struct {
 	Reused  bool
 	PredOwn bool
 	Own     int // handler-level middlewares of its own
+	// handover class: Handover = started by a handover step (while other handlers stop); ShiftObs = one of the handlers stopped by
+	// that step has a handler-level middleware registered BEFORE one of the middlewares this handler runs (so a starting handler that
+	// looked at the list while the stopped handler's entries were removed from it could see moved entries)
+	Handover bool
+	ShiftObs bool
 }
 
 func model(p *program) []expect {
@@ -225,20 +276,33 @@ func model(p *program) []expect {
 			pd = append(pd, s.IDs...)
 		case opSDec:
 			sd = append(sd, s.IDs...)
-		case opRun, opRunH:
+		case opRun, opRunH, opHandover:
+			stopNow := map[int]bool{}
+			if s.Op == opHandover {
+				for _, h := range s.Stops {
+					stopped[h], stopNow[h] = true, true
+				}
+			}
 			for h := range ex {
 				if !added[h] || ex[h].Started {
 					continue
 				}
-				e := expect{Started: true, Stable: true}
+				e := expect{Started: true, Stable: true, Handover: s.Op == opHandover}
+				removedBefore := false
 				for _, r := range regs {
 					if r.target < 0 || r.target == h {
 						e.MW = append(e.MW, r.id)
 						if r.target == h {
 							e.Own++
 						}
+						if removedBefore {
+							e.ShiftObs = true
+						}
 					} else {
 						e.Foreign = true
+						if stopNow[r.target] {
+							removedBefore = true
+						}
 					}
 				}
 				e.PDec = append([]int(nil), pd...)
@@ -723,7 +787,7 @@ func startIdx(p *program, h int) int {
 		return -1
 	}
 	for i := a + 1; i < len(p.Steps); i++ {
-		if p.Steps[i].Op == opRun || p.Steps[i].Op == opRunH {
+		if p.Steps[i].Op == opRun || p.Steps[i].Op == opRunH || p.Steps[i].Op == opHandover {
 			return i
 		}
 	}
@@ -917,6 +981,175 @@ func reuseProgram(r *vlib.Rand, id string) *program {
 func countReuse(p *program) (n int) {
 	for _, s := range p.Steps {
 		if s.Op == opReuse {
+			n++
+		}
+	}
+	return
+}
+
+// ---------------------------------------------------------------------------------------------
+// Class handover: a random program (all of whose handlers are running and have handled a message at its end) followed by
+// 1..3 rounds in which new handlers are added (with middlewares of their own) and started by RunHandlers WHILE running
+// handlers (with middlewares of their own) stop: nobody waits for Stopped() before RunHandlers.
+
+func handoverProgram(r *vlib.Rand, id string) *program {
+	p := randProgram(r, id)
+	p.HasHandover = true
+	nextID := 0
+	own := map[int]int{} // handler -> number of handler-level middlewares
+	for _, s := range p.Steps {
+		if s.Op == opMW {
+			for _, x := range s.IDs {
+				if x >= nextID {
+					nextID = x + 1
+				}
+			}
+			if s.H >= 0 {
+				own[s.H] += len(s.IDs)
+			}
+		}
+	}
+	live := []int{0, 1, 2, 3}
+	rounds := r.Range(1, 3)
+	for k := 0; k < rounds; k++ {
+		// the handlers that stop: one, or two at once; mostly ones with middlewares of their own (their entries are what the
+		// router removes from its list while the new handlers start)
+		nStop := 1
+		if len(live) >= 3 && r.Chance(0.3) {
+			nStop = 2
+		}
+		var stops []int
+		rest := append([]int(nil), live...)
+		for i := 0; i < nStop; i++ {
+			slot := r.Intn(len(rest))
+			if r.Chance(0.8) {
+				var c []int
+				for j, h := range rest {
+					if own[h] > 0 {
+						c = append(c, j)
+					}
+				}
+				if len(c) > 0 {
+					slot = c[r.Intn(len(c))]
+				}
+			}
+			stops = append(stops, rest[slot])
+			rest = append(rest[:slot], rest[slot+1:]...)
+		}
+		// the handlers that start: 1..3 new ones, registered (with their middlewares) while everything is quiet
+		nNew := 1
+		switch x := r.Intn(10); {
+		case x >= 8:
+			nNew = 3
+		case x >= 4:
+			nNew = 2
+		}
+		var st []step
+		var fresh []int
+		for i := 0; i < nNew; i++ {
+			nw := len(p.Handlers)
+			name := fmt.Sprintf("%s/n%d", id, nw)
+			if r.Chance(0.3) { // a name that extends the name of a handler that stops
+				name = fmt.Sprintf("%s~%d", p.Handlers[stops[r.Intn(len(stops))]].Name, nw)
+			}
+			hs := hspec{Name: name, Out: r.Range(0, 2)}
+			if r.Chance(0.2) {
+				hs.NoPub, hs.Out = true, 0
+			}
+			p.Handlers = append(p.Handlers, hs)
+			fresh = append(fresh, nw)
+			n := r.Range(0, 3)
+			if r.Chance(0.7) {
+				n = r.Range(1, 3)
+			}
+			own[nw] = n
+			for ; n > 0; n-- { // one call per middleware here, merged at random below
+				st = append(st, step{Op: opMW, H: nw})
+			}
+		}
+		for n := r.Intn(3); n > 0; n-- {
+			st = append(st, step{Op: opMW, H: -1})
+		}
+		shuffled := make([]step, len(st))
+		for i, j := range r.Perm(len(st)) {
+			shuffled[i] = st[j]
+		}
+		st = shuffled
+		for _, h := range fresh {
+			first := len(st)
+			for i, s := range st {
+				if s.Op == opMW && s.H == h {
+					first = i
+					break
+				}
+			}
+			st = insertSteps(st, r.Intn(first+1), []step{{Op: opAddH, H: h}})
+		}
+		for i := range st {
+			if st[i].Op == opMW {
+				st[i].IDs = []int{nextID}
+				nextID++
+			}
+		}
+		st = mergeAdjacent(st, func(int) bool { return r.Bool() })
+		ho := step{Op: opHandover, Stops: stops}
+		for range stops {
+			kind := "stop"
+			if !p.SharedSub && r.Chance(0.3) {
+				kind = "subclose"
+			}
+			ho.StopKinds = append(ho.StopKinds, kind)
+		}
+		switch x := r.Intn(20); {
+		case x < 5:
+			ho.Issue, ho.Ctor = issueParked, ctorPark
+		case x < 10:
+			ho.Issue, ho.Ctor = issueBefore, ctorPark
+		case x < 13:
+			ho.Issue, ho.Ctor = issueConcurrent, ctorPark
+		case x < 15:
+			ho.Issue, ho.Ctor = issueBefore, ctorPlain
+		case x < 16:
+			ho.Issue, ho.Ctor = issueBefore, ctorYield
+		case x < 17:
+			ho.Issue, ho.Ctor = issueConcurrent, ctorYield
+		case x < 19:
+			ho.Issue, ho.Ctor = issueConcurrent, ctorPlain
+		default:
+			ho.Issue, ho.Ctor = issueBefore, ctorSlow
+			if r.Bool() {
+				ho.Issue = issueConcurrent
+			}
+		}
+		if ho.Issue == issueConcurrent {
+			ho.Jit = [2]int{r.Intn(4), r.Intn(4)}
+		}
+		p.Steps = append(append(p.Steps, st...), ho)
+		if ho.Ctor == ctorPark {
+			// one parking constructor per starting handler: any of the middlewares it must run (router-level or its own)
+			ex := model(p)
+			seen := map[int]bool{}
+			for _, h := range fresh {
+				if mw := ex[h].MW; len(mw) > 0 {
+					id := mw[r.Intn(len(mw))]
+					if r.Chance(0.4) {
+						id = mw[len(mw)-1] // the innermost one: its constructor is the first one called
+					}
+					if !seen[id] {
+						seen[id] = true
+						p.Steps[len(p.Steps)-1].Park = append(p.Steps[len(p.Steps)-1].Park, id)
+					}
+				}
+			}
+		}
+		live = append(rest, fresh...)
+	}
+	return p
+}
+
+func countHandover(p *program) (n int) {
+	for _, s := range p.Steps {
+		if s.Op == opHandover {
 			n++
 		}
 	}
